@@ -88,10 +88,14 @@ Fixpoint match_pats (ms : list pat) (is : list iop) {struct ms} : bool :=
       (fix arc (is : list iop) : bool :=
          match is with
          | [] => false
-         | i :: ir => (is_cubic_to i x y && match_pats mr ir) || (is_cubic i && arc ir)
+         | i :: ir =>
+             (* `if` rather than && / ||: vm_compute is call-by-value *)
+             if is_cubic i then
+               (if is_cubic_to i x y then (if match_pats mr ir then true else arc ir) else arc ir)
+             else false
          end) is
   | m :: mr => match is with
-               | i :: ir => pat_match m i && match_pats mr ir
+               | i :: ir => if pat_match m i then match_pats mr ir else false
                | [] => false
                end
   end.
